@@ -47,4 +47,76 @@ theorem dropRepl_wrappers_nofault (cfg : Cfg) (ty : Nat) (ids : List Nat) (w : W
       World.dropElem_nofault cfg.hasDrop id w hf]
     exact ih _ (by simpa using hf)
 
+/-- a range iterator's items taken from either end in any pattern and dropped one by one, no injected fault: only
+destructor runs are logged and the cursor moves inwards; the vector under the iterator is untouched -/
+theorem eatLoop_drops (cfg : Cfg) (onPanic : RangeIt → WM Unit) (v : Nat) (d : VecSt) (hl : d.live = true) (lo hi : Nat)
+    (hcap : hi ≤ d.cap) (hinit : ∀ j, lo ≤ j → j < hi → ∃ id, d.cells.get j = .val id) :
+    ∀ (cs : List End) (it : RangeIt) (out : Out) (w : World), it.v = v → it.typed = false →
+      w.vecs[v]? = some d → w.fault = none → lo ≤ it.index → it.index ≤ it.end_ → it.end_ ≤ hi →
+      ∃ ids it' out', eatLoop cfg onPanic it (cs.map fun e => (e, Sink.drop)) out w =
+          (logDrops d.hasDrop ids w, .ok (it', out')) ∧
+        it'.v = it.v ∧ it'.typed = it.typed ∧ it'.start = it.start ∧ it'.end0 = it.end0 ∧ it'.origLen = it.origLen ∧
+        it.index ≤ it'.index ∧ it'.index ≤ it'.end_ ∧ it'.end_ ≤ it.end_ := by
+  intro cs
+  induction cs with
+  | nil =>
+    intro it out w _ _ _ _ _ h2 _
+    exact ⟨[], it, out, rfl, rfl, rfl, rfl, rfl, rfl, Nat.le_refl _, h2, Nat.le_refl _⟩
+  | cons e cs ih =>
+    intro it out w hitv hty hv hf h1 h2 h3
+    have hsink : ∀ slot, lo ≤ slot → slot < hi → ∃ id,
+        sinkElem cfg it.v slot it.typed .drop w = (logDrop d.hasDrop id w, .ok [cfg.tok id]) := by
+      intro slot hs1 hs2
+      obtain ⟨id, hc⟩ := hinit slot hs1 hs2
+      refine ⟨id, ?_⟩
+      rw [hitv]
+      simp only [sinkElem, WM.bind_apply, getVec_ok w v d hv hl, readElem, WM.lift,
+        VecSt.readElem_ok d slot id (by omega) hc, World.dropElem_nofault d.hasDrop id w hf, WM.pure_apply]
+    have hstep : ∀ (slot : Nat) (c' : Cursor), lo ≤ slot → slot < hi → it.index ≤ c'.index → c'.index ≤ c'.end_ →
+        c'.end_ ≤ it.end_ →
+        ∃ id, ∀ tok : String, ∃ ids it' out',
+          eatLoop cfg onPanic { it with index := c'.index, end_ := c'.end_ } (cs.map fun e => (e, Sink.drop)) (out ++ [tok])
+            (logDrop d.hasDrop id w) = (logDrops d.hasDrop ids (logDrop d.hasDrop id w), .ok (it', out')) ∧
+          it'.v = it.v ∧ it'.typed = it.typed ∧ it'.start = it.start ∧ it'.end0 = it.end0 ∧ it'.origLen = it.origLen ∧
+          it.index ≤ it'.index ∧ it'.index ≤ it'.end_ ∧ it'.end_ ≤ it.end_ ∧
+          sinkElem cfg it.v slot it.typed .drop w = (logDrop d.hasDrop id w, .ok [cfg.tok id]) := by
+      intro slot c' hs1 hs2 q1 q2 q3
+      obtain ⟨id, hsk⟩ := hsink slot hs1 hs2
+      refine ⟨id, fun tok => ?_⟩
+      obtain ⟨ids, it', out', he, e1, e2, e3, e4, e5, e6, e7, e8⟩ :=
+        ih { it with index := c'.index, end_ := c'.end_ } (out ++ [tok]) (logDrop d.hasDrop id w) hitv hty
+          (by simpa using hv) (by simpa using hf) (by show lo ≤ c'.index; omega) q2 (by show c'.end_ ≤ hi; omega)
+      exact ⟨ids, it', out', he, e1, e2, e3, e4, e5, by simp at e6; omega, e7, by simp at e8; omega, hsk⟩
+    cases e with
+    | front =>
+      by_cases hemp : it.index = it.end_
+      · have hs : (Cursor.mk it.index it.end_).step .front = (none, ⟨it.index, it.end_⟩) := by
+          simp [Cursor.step, Cursor.next, hemp]
+        simp only [List.map_cons, eatLoop, hs]
+        exact ih it _ w hitv hty hv hf h1 h2 h3
+      · have hs : (Cursor.mk it.index it.end_).step .front = (some it.index, ⟨it.index + 1, it.end_⟩) := by
+          simp [Cursor.step, Cursor.next, hemp]
+        obtain ⟨id, hrest⟩ := hstep it.index ⟨it.index + 1, it.end_⟩ h1 (by omega) (by simp) (by show it.index + 1 ≤ it.end_; omega)
+          (Nat.le_refl _)
+        obtain ⟨ids, it', out', he, e1, e2, e3, e4, e5, e6, e7, e8, hsk⟩ :=
+          hrest ((String.intercalate "/" [cfg.tok id]) ++ ":" ++ toString (Cursor.len ⟨it.index + 1, it.end_⟩))
+        refine ⟨id :: ids, it', out', ?_, e1, e2, e3, e4, e5, e6, e7, e8⟩
+        simp only [List.map_cons, eatLoop, hs, WM.bind_apply, WM.onUnwind, hsk, logDrops_cons]
+        exact he
+    | back =>
+      by_cases hemp : it.end_ = it.index
+      · have hs : (Cursor.mk it.index it.end_).step .back = (none, ⟨it.index, it.end_⟩) := by
+          simp [Cursor.step, Cursor.nextBack, hemp]
+        simp only [List.map_cons, eatLoop, hs]
+        exact ih it _ w hitv hty hv hf h1 h2 h3
+      · have hs : (Cursor.mk it.index it.end_).step .back = (some (it.end_ - 1), ⟨it.index, it.end_ - 1⟩) := by
+          simp [Cursor.step, Cursor.nextBack, hemp]
+        obtain ⟨id, hrest⟩ := hstep (it.end_ - 1) ⟨it.index, it.end_ - 1⟩ (by omega) (by omega) (Nat.le_refl _)
+          (by show it.index ≤ it.end_ - 1; omega) (by show it.end_ - 1 ≤ it.end_; omega)
+        obtain ⟨ids, it', out', he, e1, e2, e3, e4, e5, e6, e7, e8, hsk⟩ :=
+          hrest ((String.intercalate "/" [cfg.tok id]) ++ ":" ++ toString (Cursor.len ⟨it.index, it.end_ - 1⟩))
+        refine ⟨id :: ids, it', out', ?_, e1, e2, e3, e4, e5, e6, e7, e8⟩
+        simp only [List.map_cons, eatLoop, hs, WM.bind_apply, WM.onUnwind, hsk, logDrops_cons]
+        exact he
+
 end AnyVec
